@@ -382,7 +382,7 @@ def numeral_vars(f):
     return vars_, assum
 
 
-def _run_symbolic(fstr, f, vars_):
+def _run_symbolic(fstr, f, vars_, trunc=False):
     """run the real formula_to_composition with numeral placeholders; returns (got dict, oracle dict)"""
     from chempy.util import parsing
 
@@ -401,7 +401,10 @@ def _run_symbolic(fstr, f, vars_):
         if isinstance(x, str):
             return var_for(x)
         if isinstance(x, SymNum):
-            return x
+            # int() truncates towards zero (identity on integer-sorted placeholders).  The big skeleton tasks keep the identity (the
+            # real code only calls int(n) under `n == int(n)`, where both agree, and the extra fork per element costs x25); the
+            # L2.trunc task models the truncation on small skeletons so that a changed guard (tolerance, round) is visible
+            return x.truncated() if trunc else x
         return int(x, *a)
 
     parsing.float, parsing.int = s_float, s_int
@@ -439,7 +442,7 @@ sys.exit(0 if ok else 1)
 '''
 
 
-def task_skeletons(seed, n, depth, width):
+def task_skeletons(seed, n, depth, width, trunc=False):
     from chempy.util import parsing
 
     rnd = random.Random(seed)
@@ -465,7 +468,7 @@ def task_skeletons(seed, n, depth, width):
         vars_, assum0 = numeral_vars(f)
 
         def fn():
-            return _run_symbolic(fstr, f, vars_)
+            return _run_symbolic(fstr, f, vars_, trunc)
 
         def goal(p, twin=False):
             if p.kind == "exc":
@@ -475,7 +478,7 @@ def task_skeletons(seed, n, depth, width):
                 return False
             return z3.And(*[eq_term(got[k], exp[k] if not twin else exp[k] + 1) for k in exp])
 
-        o = explore_and_prove(fn, assum0, goal, max_paths=200, deadline_s=60)
+        o = explore_and_prove(fn, assum0, goal, max_paths=200 if not trunc else 600, deadline_s=60 if not trunc else 120)
         res["obligations"] += o.obligations
         res["discharged"] += o.discharged
         res["queries"] += o.queries
@@ -588,6 +591,9 @@ def tasks(tier, seed):
     for i in range(nt):
         ts.append(dict(id="C01.L2.skeletons.%02d" % i, fn="task_skeletons", kwargs=dict(seed=seed * 1000 + i, n=n // nt, depth=depth, width=width),
                        timeout=3000))
+    for i in range(2 if tier == "quick" else 8):
+        ts.append(dict(id="C01.L2.trunc.%02d" % i, fn="task_skeletons", kwargs=dict(seed=seed * 1000 + 500 + i, n=25 if tier == "quick" else 60, depth=2, width=2,
+                                                                              trunc=True), timeout=3000))
     ts.append(dict(id="C01.reject", fn="task_reject", kwargs=dict(seed=seed, n=200), timeout=600))
     for h in ("_h_get_charge", "_h_charge_tail", "_h_parts_all_prefixes", "_h_leading_integer"):
         ts.append(dict(id="C01.L3.%s" % h[3:], fn="task_lexing", kwargs=dict(tier=tier, only=h), timeout=5000))
